@@ -332,7 +332,7 @@ class Check:
         table, _, _ = run_model("pure", "\n".join("push.accepts %d" % st for st in range(100, 600)) + "\n")
         accepts = {100 + i: v == "1" for i, v in enumerate(table)}
         scen = [gen_push.scenario(rng.fork("push/%d" % i), self.tier) for i in range(1 if self.tier == "quick" else 4)]
-        if self.tier != "quick":
+        if self.tier != "quick" and self.prop == "C14":
             scen.append(gen_push.slow_102(rng))
         nd = 0
         for lines, meta in scen:
@@ -348,6 +348,8 @@ class Check:
                 if sig.startswith(self.prop.lower() + ":") or not sig.startswith(("c09:", "c14:")):
                     self.oracle_fail.append((sig, msg, dict(mode="push", stream="push", ops=lines, impl=answers, model=[])))
             for c in corr:
+                if c.startswith("status ") and self.prop != "C14":
+                    continue          # the accepted-status table is C14's; C09 is about the payload
                 if c.startswith("status 102:") and self.is_known("c14:accepted-status-reposted:102"):
                     continue          # same root cause as the listed finding
                 nd += 1
